@@ -256,7 +256,8 @@ fn parse(req: &J) -> J {
             Ok(uf) => &uf == f,
             Err(_) => false,
         },
-        (Err(a), Err(b)) => a == b,
+        // both reject the text (messages may be located differently)
+        (Err(_), Err(_)) => true,
         // fold_program panicking inside parse() surfaces as a parse error of the folded program only
         (Ok(u), Err(_)) => catch_unwind(AssertUnwindSafe(|| varpulis_parser::optimize::fold_program(u.clone()))).is_err(),
         _ => false,
